@@ -309,8 +309,19 @@ impl Sys {
             Arc::clone(&self.shared[shard].flush_lock),
         ));
         let worker = CompactionWorker::new(shard as u32, dir, registry, handover);
-        worker.run().await.map_err(|e| e.to_string())?;
+        // as in the engine (compactor/background.rs) the round runs inside a spawned task: a panic in
+        // it ends that task, not the process; it is reported as a failed round
+        let res = tokio::spawn(async move { worker.run().await.map_err(|e| e.to_string()) }).await;
         self.barrier().await;
+        match res {
+            Ok(r) => r?,
+            Err(e) if e.is_panic() => {
+                let p = e.into_panic();
+                let m = p.downcast_ref::<String>().cloned().or_else(|| p.downcast_ref::<&str>().map(|s| s.to_string())).unwrap_or_else(|| "panic".into());
+                return Err(format!("compaction round panicked: {m}"));
+            }
+            Err(_) => return Err("compaction round cancelled".into()),
+        }
         Ok(true)
     }
 
